@@ -617,6 +617,21 @@ def emit_clone_view(em, module, struct_name, fields, derived, report, manual=Fal
     em.add('    }')
     em.fnspans.append((start, em.lineno(), module, 'clone_view'))
 
+def view_canaries(em, stems):
+    out = []
+    text = '\n'.join(em.lines)
+    if 'echo' not in stems: return ''
+    for m in re.finditer(r'^pub mod (\w+) \{\n(?:(?!pub mod ).*\n)*?pub struct (\w+)(?:<([^>]*)>)?', text, re.M):
+        stem, sname, gens = m.group(1), m.group(2), m.group(3)
+        if stem not in stems: continue
+        args = []
+        for g in [x.strip().split(':')[0].strip() for x in gens.split(',')] if gens else []:
+            args.append('crate::views::Sma<crate::views::Echo>' if g == 'M' else 'crate::views::Echo')
+        if 'crate::views::Sma<crate::views::Echo>' in args and 'sma' not in stems: continue
+        ty = 'crate::views::%s%s' % (sname, ('<%s>' % ', '.join(args)) if args else '')
+        out.append('pub proof fn canary_inv_%s(v: %s, y: T) requires v.inv(), <%s as crate::shim::View>::accepts(v.abs(), y) ensures false {}' % (stem, ty, ty))
+    return '\n'.join(out) + '\n'
+
 def sha(s):
     return hashlib.sha256(s.encode()).hexdigest()[:16]
 
@@ -843,12 +858,14 @@ def build(out_path, only=None, exclude=None):
             em.add(ln)
         em.add('} // mod %s' % stem)
     em.add('} // mod props')
-    em.add('pub mod canary {\nuse vstd::prelude::*;\nuse crate::shim::*;\nuse crate::lem::*;\n'
+    em.add('pub mod canary {\nuse vstd::prelude::*;\nuse crate::shim::*;\nuse crate::shim::View;\nuse crate::lem::*;\n'
            'broadcast use {crate::lem::group_lem, crate::shim::group_literals, crate::shim::group_shim};\n'
            '// each of these MUST FAIL; if one verifies the trusted base is inconsistent\n'
            'pub proof fn canary_false() ensures false {}\n'
            'pub proof fn canary_axioms() ensures false { ax_cos_sin(1real); ax_pi(); ax_ln_one(); ax_minmax(); ax_signum0(); ax_entropy(1real / 2real); ax_log2_one(); ax_cos_sin_q1(1real); ax_ln_inv(2real); ax_ln_mono(1real, 2real); ax_cos_q23(2real); }\n'
            'pub proof fn canary_real(a: real, b: real) requires a * b == 1real ensures a == b {}\n'
+           '// vacuity guards, one per view: neither the representation invariant nor the precondition of update may be contradictory\n'
+           + view_canaries(em, stems) +
            '} // mod canary')
     em.add(tail.strip('\n'))
     text = '\n'.join(em.lines) + '\n'
